@@ -71,6 +71,9 @@ def check(run, prog, tier):
                       "eigenvector matrix is indexed [site, exciton]", minimum=2)
     rule_I(run, prog, "C12-I", "for uncoupled molecules the widths are then permuted among the molecules and the response is no "
                                "longer the sum of the molecules' responses")
+    run.rule("C12-M", "the pathway generators diagonalize an aggregate that is not diagonalized yet: no call placed under the very "
+                      "condition under which the callee returns at once", minimum=2)
+    rule_M(run, prog)
     run.rule("C12-L", "the squared transition dipoles that select the pathways are scalar products (rotation invariant)", minimum=2)
     rule_L(run, prog)
     run.rule("C12-K", "the widths and dephasing rates of a pathway fall back to the calculator's own exactly when they are not "
@@ -120,6 +123,68 @@ def rule_I(run, prog, rid, what):
                                sample={"statement": norm(st)[:80]})
     if n_st < 2:
         raise AnalysisError("diagonalize: only %d width accumulations over sites recognised (2 confirmed)" % n_st)
+
+
+def rule_M(run, prog):
+    """'For an aggregate of uncoupled molecules the response equals the sum of the responses of the molecules': the ESA
+    pathways cancel the cross peaks only with the line widths of the 1->2 transitions, which AggregateBase.diagonalize()
+    computes (the cross terms of Wd).  The pathway generators call self.diagonalize() themselves so that a user who did
+    not is served as well - but diagonalize() returns at once when self._diagonalized is set.  A call placed under
+    `if self._diagonalized:` is therefore reached only when it does nothing, and never when it is needed (a contradiction
+    between the caller's condition and the callee's own guard).  Package-wide: where a method is called under a test of
+    a flag of self, and that method starts by returning when the same flag has the tested value, the call is dead."""
+    from .. import memo
+    rid = "C12-M"
+    n = 0
+    for cls in prog.all_classes():
+        if ".tests." in cls.qualname or ".wizard." in cls.qualname:
+            continue
+        methods = None
+        for nme, f in cls.methods.items():
+            for iff in [x for x in walk_no_nested(f.node) if isinstance(x, ast.If)]:
+                t_ = iff.test
+                neg = False
+                while isinstance(t_, ast.UnaryOp) and isinstance(t_.op, ast.Not):
+                    t_, neg = t_.operand, not neg
+                if not (isinstance(t_, ast.Attribute) and norm(t_.value) == "self"):
+                    continue
+                flag = t_.attr
+                for st in iff.body:
+                    for c in ast.walk(st):
+                        if not (isinstance(c, ast.Call) and isinstance(c.func, ast.Attribute) and norm(c.func.value) == "self" and not c.args):
+                            continue
+                        if methods is None:
+                            methods = memo._class_methods(prog, cls)
+                        callee = methods.get(c.func.attr)
+                        if callee is None:
+                            continue
+                        # the callee's own guard on the same flag: `if self.F: return` / `if not self.F: return`
+                        g = None
+                        for cs in callee.node.body:
+                            if isinstance(cs, ast.Expr) and isinstance(cs.value, ast.Constant):
+                                continue
+                            if isinstance(cs, ast.If) and len(cs.body) == 1 and isinstance(cs.body[0], ast.Return) and not cs.orelse:
+                                ct, cneg = cs.test, False
+                                while isinstance(ct, ast.UnaryOp) and isinstance(ct.op, ast.Not):
+                                    ct, cneg = ct.operand, not cneg
+                                if isinstance(ct, ast.Attribute) and norm(ct.value) == "self" and ct.attr == flag:
+                                    g = cneg
+                            break
+                        if g is None:
+                            continue
+                        n += 1
+                        prog.consulted.add(f.relpath)
+                        dead = (g == neg)       # the caller reaches the call exactly when the callee returns at once
+                        run.obligation(rid, f.short, not dead, key="call-not-dead:%s:%s" % (c.func.attr, flag),
+                                       message="%s calls self.%s() under `%s`, and %s begins with `%s: return`: the call is reached only "
+                                               "when it does nothing.  An aggregate that was not diagonalized by hand is never "
+                                               "diagonalized here, the widths of the 1->2 transitions lack their cross terms, and the "
+                                               "excited-state absorption no longer cancels the cross peaks of uncoupled molecules"
+                                               % (f.short, c.func.attr, norm(iff.test), callee.short, norm(callee.node.body[0].test)
+                                                  if isinstance(callee.node.body[0], ast.If) else "if self.%s" % flag),
+                                       loc=f.loc(c), sample={"flag": flag, "callee": callee.short})
+    if n < 2:
+        raise AnalysisError("C12-M: only %d calls under a flag that the callee tests itself (2 confirmed)" % n)
 
 
 def rule_L(run, prog):
